@@ -93,8 +93,8 @@ Definition c_nl : N := 10.
 (* the class of < > : double-quote / backslash | ? and star *)
 Definition is_illegal (c : N) : bool :=
   (c =? 60) || (c =? 62) || (c =? 58) || (c =? 34) || (c =? 47) || (c =? 92) || (c =? 124) || (c =? 63) || (c =? 42).
-(* [\x00-\x1F] *)
-Definition is_ctrl (c : N) : bool := c <? 32.
+(* [\x00-\x1F\x7F-\x9F]: every Unicode control character (category Cc) *)
+Definition is_ctrl (c : N) : bool := (c <? 32) || ((127 <=? c) && (c <=? 159)).
 (* [ \t] *)
 Definition is_ws (c : N) : bool := (c =? 32) || (c =? 9).
 Definition is_dot (c : N) : bool := c =? 46.
@@ -220,6 +220,9 @@ Definition save_file_name (sugg : list N) : option (list N) :=
 (* os.path.basename *)
 Definition basename (p : list N) : list N :=
   match rfind (fun c => c =? 47) p with Some i => skipn (S i) p | None => p end.
+
+(* storage.recover_streams (as repaired): the stored file name of a recovered stream *)
+Definition recovered_file_name (sugg : list N) : list N := sanitize (basename sugg).
 
 (* ------------------------------------------------------------------------------------------ *)
 (* descriptors *)
@@ -498,6 +501,36 @@ Section C02.
     end.
   Definition decrypt_stream (d : desc) (cts : list bytes) : option bytes :=
     decrypt_blobs (d_key d) (removelast (d_blobs d)) cts.
+
+  (* --- ManagedStream._save_file with a cancellation (stop_tasks / stop / delete / second save_file / shutdown).
+         [k] = how many more steps the save may take before the cancellation lands, a step being one blob write and,
+         after the last one, the bookkeeping that completes the save.  A cancellation that lands at any point before
+         completion runs the cleanup branch, which removes the incomplete file (None). --- *)
+  Fixpoint save_loop (acc : bytes) (pieces : list bytes) (k : nat) : option bytes :=
+    match k with
+    | O => None
+    | S k' => match pieces with
+              | [] => Some acc
+              | p :: r => save_loop (acc ++ p) r k'
+              end
+    end.
+
+  (* --- ManagedStream._prepare_range_response_headers + stream_file for 'bytes=start-': skip whole blobs, then drop
+         the first bytes of the first blob that is read (as repaired: MAX_BLOB_SIZE - 1 plaintext bytes per blob) --- *)
+  Definition range_plan (start : nat) : nat * nat := (start / (maxb - 1), start mod (maxb - 1))%nat.
+  Definition range_read (pieces : list bytes) (start : nat) : bytes :=
+    let (q, r) := range_plan start in skipn r (concat (skipn q pieces)).
+  (* the formula before the repair: start // (MAX_BLOB_SIZE - 2) blobs skipped, offset start - skip*(MAX_BLOB_SIZE-1)
+     (negative offsets index from the end, as Python slices do) *)
+  Definition range_read_old (pieces : list bytes) (start : nat) : bytes :=
+    let q := (start / (maxb - 2))%nat in
+    let rest := concat (skipn q pieces) in
+    let skip := (q * (maxb - 1))%nat in
+    if Nat.leb skip start then skipn (start - skip) rest
+    else match skipn q pieces with
+         | first :: more => skipn (length first - (skip - start)) first ++ concat more
+         | [] => []
+         end.
 
   (* --- the streaming read path: StreamDownloader.cached_read_blob in front of read_blob, one decrypted-blob LRU
          shared by every stream of a blob manager (BlobManager.decrypted_blob_lru_cache, utils.lru_cache_concurrent).
